@@ -42,6 +42,70 @@ type paragraphXML struct {
 	BookmarkStart []bookmarkXML     `xml:"bookmarkStart"`
 }
 
+// UnmarshalXML decodes a paragraph keeping all of its runs in document order.
+// Runs are direct children of <w:p> or sit inside inline containers: hyperlinks,
+// tracked insertions and moves, content controls, smart tags, simple fields,
+// custom XML and bidirectional wrappers. Deleted and moved-away text is not part
+// of the current document and is skipped.
+func (p *paragraphXML) UnmarshalXML(d *xml.Decoder, start xml.StartElement) error {
+	p.XMLName = start.Name
+	return p.decodeInline(d, nil)
+}
+
+// decodeInline reads the children of the current element up to its end tag.
+// link is non-nil while inside a <w:hyperlink>.
+func (p *paragraphXML) decodeInline(d *xml.Decoder, link *hyperlinkXML) error {
+	for {
+		tok, err := d.Token()
+		if err != nil {
+			return err
+		}
+		switch t := tok.(type) {
+		case xml.StartElement:
+			switch t.Name.Local {
+			case "pPr":
+				if link != nil {
+					err = d.Skip()
+				} else {
+					err = d.DecodeElement(&p.Properties, &t)
+				}
+			case "r":
+				var run runXML
+				if err = d.DecodeElement(&run, &t); err == nil {
+					p.Runs = append(p.Runs, run)
+					if link != nil {
+						link.Runs = append(link.Runs, run)
+					}
+				}
+			case "hyperlink":
+				h := hyperlinkXML{}
+				for _, a := range t.Attr {
+					if a.Name.Local == "id" {
+						h.ID = a.Value
+					}
+				}
+				if err = p.decodeInline(d, &h); err == nil {
+					p.Hyperlinks = append(p.Hyperlinks, h)
+				}
+			case "bookmarkStart":
+				var b bookmarkXML
+				if err = d.DecodeElement(&b, &t); err == nil {
+					p.BookmarkStart = append(p.BookmarkStart, b)
+				}
+			case "ins", "moveTo", "sdt", "sdtContent", "smartTag", "fldSimple", "customXml", "dir", "bdo":
+				err = p.decodeInline(d, link)
+			default:
+				err = d.Skip()
+			}
+			if err != nil {
+				return err
+			}
+		case xml.EndElement:
+			return nil
+		}
+	}
+}
+
 // paragraphPropsXML represents paragraph properties (<w:pPr>).
 type paragraphPropsXML struct {
 	Style         styleRefXML       `xml:"pStyle"`
@@ -108,6 +172,90 @@ type runXML struct {
 	Drawing          []drawingXML          `xml:"drawing"`
 	Symbols          []symXML              `xml:"sym"`
 	AlternateContent []alternateContentXML `xml:"AlternateContent"`
+	Content          []runItem             `xml:"-"` // text, symbols, tabs and breaks in document order
+}
+
+// runItem is one piece of run content in document order: literal text, or a
+// symbol given by its hexadecimal character code.
+type runItem struct {
+	Text string
+	Sym  string
+}
+
+// UnmarshalXML decodes a run keeping the order of its children. The typed
+// slices (Text, Tabs, Breaks, ...) are filled as before; Content additionally
+// records text, symbols, tabs and breaks in the order they appear, which the
+// per-type slices cannot express (<w:tab/> before <w:t> is not the same as after).
+func (r *runXML) UnmarshalXML(d *xml.Decoder, start xml.StartElement) error {
+	r.XMLName = start.Name
+	for {
+		tok, err := d.Token()
+		if err != nil {
+			return err
+		}
+		switch t := tok.(type) {
+		case xml.StartElement:
+			switch t.Name.Local {
+			case "rPr":
+				if err := d.DecodeElement(&r.Properties, &t); err != nil {
+					return err
+				}
+			case "t":
+				var v textXML
+				if err := d.DecodeElement(&v, &t); err != nil {
+					return err
+				}
+				r.Text = append(r.Text, v)
+				r.Content = append(r.Content, runItem{Text: v.Value})
+			case "tab":
+				var v tabXML
+				if err := d.DecodeElement(&v, &t); err != nil {
+					return err
+				}
+				r.Tabs = append(r.Tabs, v)
+				r.Content = append(r.Content, runItem{Text: "\t"})
+			case "br", "cr":
+				var v breakXML
+				if err := d.DecodeElement(&v, &t); err != nil {
+					return err
+				}
+				r.Breaks = append(r.Breaks, v)
+				if v.Type == "page" {
+					r.Content = append(r.Content, runItem{Text: "\n\n"})
+				} else {
+					r.Content = append(r.Content, runItem{Text: "\n"})
+				}
+			case "sym":
+				var v symXML
+				if err := d.DecodeElement(&v, &t); err != nil {
+					return err
+				}
+				r.Symbols = append(r.Symbols, v)
+				r.Content = append(r.Content, runItem{Sym: v.Char})
+			case "drawing":
+				var v drawingXML
+				if err := d.DecodeElement(&v, &t); err != nil {
+					return err
+				}
+				r.Drawing = append(r.Drawing, v)
+			case "AlternateContent":
+				var v alternateContentXML
+				if err := d.DecodeElement(&v, &t); err != nil {
+					return err
+				}
+				r.AlternateContent = append(r.AlternateContent, v)
+				for _, ft := range v.Fallback.Text {
+					r.Content = append(r.Content, runItem{Text: ft.Value})
+				}
+			default:
+				if err := d.Skip(); err != nil {
+					return err
+				}
+			}
+		case xml.EndElement:
+			return nil
+		}
+	}
 }
 
 // symXML represents a symbol character (<w:sym>).
